@@ -493,7 +493,7 @@ def main(tier, seed):
                 "connection served, canary intact. distinct = command names and frame shape classes reached")
     rep.assumptions = [
         "LEVEL: proof for the modelled arithmetic sites only (release arithmetic: wrapping +,-,*; `as` casts; slice and capacity panics); process liveness is explored, not proved",
-        "unmodelled: allocator behaviour under memory pressure, stack cost per recursion level, Lua run time beyond the 5 s limit's granularity and Lua memory (recorded finding: a script can allocate without bound), "
+        "unmodelled: allocator behaviour under memory pressure, stack cost per recursion level, Lua run time beyond the 5 s limit's granularity and Lua memory beyond the limit of 67d6403 (both limits are explored on address-space-capped servers, not modelled), "
         "lock-order deadlocks between the command thread and BGSAVE/sweeper (none found by reading)",
         "SHUTDOWN, SLEEP, DEBUG, CLIENT, CONFIG, REPLICAOF, MONITOR, SYNC are excluded from the sweep (their documented purpose is to stop, pause or re-wire the server)",
     ]
